@@ -25,10 +25,35 @@ def deep(draw):
     return v
 
 
+# reference strings that can never form a cycle: they designate leaf definitions (subschema positions) or nothing
+# at all (missing member, index past the end of an array, a member of a string) -- never a non-schema value
+SAFE_REFS = ["#/definitions/a", "#/definitions/nope", "#/items/2", "#/items/0", "#/items/7", "#/definitions/a/type/7",
+             "#/definitions/arr/5", "#/definitions/arr/0", "#/definitions/a/enum/7", "#/definitions/a/enum/0/x",
+             "#/definitions/str/0", "#/definitions/str/x", "#/nope/nope", "#/definitions/b", "#/definitions/arr/-1",
+             "#/definitions/arr/01", "#/definitions/", "http://ex.test/unreachable.json#/x", "unreachable.json",
+             "#/definitions/a/maxLength/0", "#//", "#/%"]
+SAFE_DEFS = {"a": {"type": ["string", "null"], "enum": ["s", None]}, "b": {"minimum": 3}, "arr": [{"type": "integer"}],
+             "str": "just a string"}
+
+
 @st.composite
 def cases(draw):
     d = draw(st.sampled_from(impl.DRAFTS))
-    src = draw(st.integers(0, 9))
+    src = draw(st.integers(0, 11))
+    if src >= 10:
+        s = dict(draw(GS.schema_object(d, GS.schemas(d, 4))))
+        s.pop("definitions", None)
+        if not isinstance(s.get("items"), list):
+            s["items"] = [{"type": "string"}, {"type": "integer"}]
+        s["definitions"] = copy.deepcopy(SAFE_DEFS)
+        props = {}
+        for k in draw(st.lists(V.small_keys, min_size=1, max_size=3, unique=True)):
+            props[k] = {"$ref": draw(st.sampled_from(SAFE_REFS))}
+        s["properties"] = props
+        if draw(st.booleans()):
+            s["additionalProperties"] = {"$ref": draw(st.sampled_from(SAFE_REFS))}
+        xs = [draw(st.dictionaries(V.small_keys, hostile_scalar, min_size=1, max_size=4)) for _ in range(3)]
+        return {"draft": d, "schema": s, "instances": xs, "flavour": "safe-refs", "probes": 6}
     if src < 6:
         s = draw(GS.liberal(d))
         flavour = "liberal"
@@ -57,6 +82,26 @@ def risky_ref(v):
     if isinstance(v, list):
         return any(risky_ref(e) for e in v)
     return False
+
+
+def only_safe_refs(s):
+    """safe-refs flavour: every $ref string comes from SAFE_REFS and the definitions are the fixed leaf set,
+    so no reference can lead back into the schema (no cycles)."""
+    if not isinstance(s, dict) or s.get("definitions") != SAFE_DEFS:
+        return False
+
+    def ok(v):
+        if isinstance(v, dict):
+            if "$ref" in v and not isinstance(v["$ref"], (dict, bool)) and v["$ref"] not in SAFE_REFS:
+                return False
+            return all(ok(e) for e in v.values())
+        if isinstance(v, list):
+            return all(ok(e) for e in v)
+        return True
+    it = s.get("items")
+    if not isinstance(it, list) or any(risky_ref(e) for e in it):
+        return False
+    return ok(s)
 
 
 def bad_regex(v):
@@ -160,11 +205,13 @@ class C03(Prop):
             "(Draft 3) UnknownType may escape.  Plus an exhaustive small-scope stage: every keyword x 60-value pool "
             "(and consulted sibling pairs) x 40 hostile instances.  Non-trivial: schema accepted and it carries an "
             "unusual keyword value (null/boolean/empty/float/huge) or the instance is outside plain JSON scalars.")
-    ASSUMPTIONS = ["every $ref value is excluded (reference cycles / non-string $ref are outside the claim; "
-                   "references are exercised by C02/C07/C14)",
+    ASSUMPTIONS = ["$ref appears only in the 'safe-refs' flavour (references to leaf definitions or to nothing: missing "
+                   "members, indices past the end, members of strings), which cannot form cycles; other schemas "
+                   "containing $ref are excluded (cycles / non-string $ref are outside the claim)",
                    "nesting deeper than 12 levels and integers beyond 4000 digits are not generated (CPython limits)",
                    "hangs are only detected by a 90 s per-case watchdog and reported as inconclusive"]
-    GATES = {"accepted:liberal": 500, "accepted:well-meant": 500, "unusual": 300}
+    GATES = {"accepted:liberal": 500, "accepted:well-meant": 500, "unusual": 300, "accepted:safe-refs": 200,
+             "raised:RefResolutionError": 100}
     MIN_NONTRIVIAL = 300
 
     def strategy(self, tier):
@@ -175,7 +222,7 @@ class C03(Prop):
         res.evals = 0
         d, s = case["draft"], case["schema"]
         cls = impl.CLS[d]
-        if risky_ref(s):
+        if risky_ref(s) and not (case.get("flavour") == "safe-refs" and only_safe_refs(s)):
             res.excluded = "contains-$ref"
             return res
         if bad_regex(s):
